@@ -187,10 +187,12 @@ CLAIMED["C09"] = dict(
           "whose special residues are swapped with their predecessors (a permutation of the residues); the non-specific lookup returns, "
           "sorted, exactly the proteins whose sequence contains the peptide; the iBAQ number = number of distinct peptides of the "
           "protein's digestion; the map merged over several parameter sets / files lists every protein of any of the maps exactly once "
-          "per peptide in first-seen order; reading the written map file gives the map back. Correspondence on generated FASTA text (wrapping, CRLF, blank lines), 1-2 files x 1-3 parameter sets "
+          "per peptide in first-seen order; reading the written map file gives the map back; read_fasta on a well-formed FASTA text returns the records in order "
+          "(identifier = parse_id of the header, sequence = concatenated sequence lines, decoys per database mode). Correspondence on generated FASTA text (wrapping, CRLF, blank lines), 1-2 files x 1-3 parameter sets "
           "with several proteases, target and target+decoy, special residues KR/none, hashed lookups, iBAQ numbers, map file round trip."),
     note=COMMON_NOTE + "Text decoding/universal newlines and csv are the runtime's (lines obtained with Python's own open()); "
-         "read_fasta's line loop is tied by correspondence only (no theorem); identifiers distinct, without ';'. Axioms: none.",
+         "read_fasta's behaviour on MALFORMED text (blank lines, bare '>', trailing white space) is tied by correspondence only; identifiers "
+         "distinct, without ';'. Axioms: none.",
     technique="Coq proof over association-list model (equational map spec, counting via NoDup permutations) + file-level differential correspondence",
     design="5/C09")
 
